@@ -75,8 +75,13 @@ def _pd_day(n):
     return pd.date_range('2000-01-30', periods=n, freq='D')
 
 
+def _range_step(n):
+    return range(2000, 2000 + 5 * n, 5)   # five-yearly periods: a label is not its distance from the first one
+
+
 SPAN_TYPES = {
     'range': _range,
+    'range_step': _range_step,
     'range_zero': _range_zero,
     'list_falsy': _list_falsy,
     'list_str': _list_str,
@@ -107,7 +112,7 @@ def make(kind, n):
 def absent_label(kind):
     """A label of the right flavour that is in no span of this kind."""
     return {
-        'range': 1999, 'range_zero': 99, 'list_falsy': 'absent', 'list_str': 'zz', 'list_mixed': 'absent', 'tuple_int': 9, 'np_int': 9, 'np_str': 'zz', 'np_unsorted': 16, 'np_str_unsorted': 'mn', 'list_names': 'absent',
+        'range': 1999, 'range_step': 2001, 'range_zero': 99, 'list_falsy': 'absent', 'list_str': 'zz', 'list_mixed': 'absent', 'tuple_int': 9, 'np_int': 9, 'np_str': 'zz', 'np_unsorted': 16, 'np_str_unsorted': 'mn', 'list_names': 'absent',
         'pd_int': 6, 'pd_str': 'zz', 'pd_unsorted': 6,
         'pd_year': pd.Period('1990', freq='Y'), 'pd_quarter': pd.Period('1990Q1', freq='Q'),
         'pd_day': pd.Timestamp('1990-01-01'),
